@@ -67,7 +67,11 @@ package ice
 //@   site call UpdatePacketReceived#1 assert counts-delivered-bytes: arg1 == n && n > 0
 
 //@ func (*Agent).validateNonSTUNTraffic
-//@   props C07
+//@   props C07 C10
+//@   ghostvar lctx int = 0
+//@   site call context#1 assert C10 the-context-of-the-candidate-whose-receive-loop-is-calling: recv == local
+//@   site call context#1 ghost lctx := result.payload
+//@   site call Run#1 assert C10 the-submission-is-abandoned-when-the-receiving-candidate-is-closed: arg0 == a.loop && arg1.payload == lctx
 //@   ensures valid-iff-candidate-found: result1 == (result0 != nil)
 
 //@ func (*Agent).validateNonSTUNTraffic$1
